@@ -1,28 +1,90 @@
 package main
 
 import (
+	"encoding/json"
 	"flag"
 	"fmt"
 	"os"
+	"path/filepath"
+	"regexp"
 	"sort"
+	"strconv"
 	"strings"
+	"time"
 )
+
+type PropSel struct {
+	Pkg   string `json:"pkg"`
+	Funcs string `json:"funcs"` // regexp on contract key
+	Kinds string `json:"kinds"` // regexp on obligation kind ("" = all)
+}
+
+type PropDef struct {
+	Select    []PropSel `json:"select"`
+	Level     string    `json:"level"`
+	Undecided []string  `json:"undecided_clauses"`
+	Thorough  []PropSel `json:"thorough_extra"`
+}
+
+type Finding struct {
+	Property   string `json:"property"`
+	Obligation string `json:"obligation"`
+	Status     string `json:"status"` // known | fixed
+	WhatFails  string `json:"what_fails"`
+	Commit     string `json:"commit,omitempty"`
+	Region     string `json:"region,omitempty"`
+	Witness    string `json:"witness,omitempty"`
+}
+
+func loadFindings(path string) []Finding {
+	b, err := os.ReadFile(path)
+	if err != nil {
+		return nil
+	}
+	var out []Finding
+	for _, l := range strings.Split(string(b), "\n") {
+		l = strings.TrimSpace(l)
+		if l == "" {
+			continue
+		}
+		var f Finding
+		if err := json.Unmarshal([]byte(l), &f); err != nil {
+			fmt.Fprintln(os.Stderr, "known_findings: bad line:", err)
+			os.Exit(2)
+		}
+		out = append(out, f)
+	}
+	return out
+}
 
 func main() {
 	root := flag.String("repo", "/repo", "repository root")
-	mirror := flag.String("contracts", "/verif/contracts", "contract mirror")
-	pkgs := flag.String("pkgs", "", "comma-separated package paths (relative to module)")
-	only := flag.String("func", "", "only this function key")
-	timeout := flag.Int("timeout", 10, "per-obligation solver timeout (s)")
-	workers := flag.Int("j", 8, "parallel obligations")
-	dump := flag.Bool("dump", false, "keep smt files and print failing obligations verbosely")
+	verif := flag.String("verif", "/verif", "verif root")
+	pkgs := flag.String("pkgs", "", "comma-separated package paths (relative to module); development mode")
+	only := flag.String("func", "", "only this function key (development mode)")
+	prop := flag.String("property", "", "property id (check mode)")
+	tier := flag.String("tier", "quick", "quick | thorough")
+	timeout := flag.Int("timeout", 0, "per-obligation solver timeout (s)")
+	workers := flag.Int("j", 12, "parallel obligations")
+	dump := flag.Bool("dump", false, "keep smt files")
 	flag.Parse()
-	ld := NewLoader(*root, *mirror)
+	if *timeout == 0 {
+		*timeout = 10
+		if *tier == "thorough" {
+			*timeout = 60
+		}
+	}
+	ld := NewLoader(*root, filepath.Join(*verif, "contracts"))
 	dir, _ := os.MkdirTemp("", "govc")
 	if !*dump {
 		defer os.RemoveAll(dir)
 	} else {
 		fmt.Println("smt dir:", dir)
+	}
+	if *prop != "" {
+		code := runProperty(ld, *verif, *prop, *tier, dir, *timeout, *workers)
+		os.RemoveAll(dir)
+		os.Exit(code)
 	}
 	var results []*FuncResult
 	for _, rel := range strings.Split(*pkgs, ",") {
@@ -56,11 +118,7 @@ func main() {
 		var fails []string
 		for _, o := range fr.Obls {
 			total++
-			ok := o.Status == "unsat"
-			if o.Cover {
-				ok = o.Status != "unsat"
-			}
-			if !ok {
+			if !oblOK(o) {
 				bad++
 				fails = append(fails, fmt.Sprintf("   FAIL %s [%s by %s %.2fs] %s %s", o.Name, o.Status, o.Solver, o.Seconds, o.Text, o.Failed))
 			}
@@ -79,4 +137,259 @@ func main() {
 	if bad > 0 {
 		os.Exit(1)
 	}
+}
+
+func oblOK(o *Obligation) bool {
+	if o.Cover {
+		return o.Status != "unsat" && o.Status != "error"
+	}
+	return o.Status == "unsat"
+}
+
+// runProperty is the check entry point: generates and discharges the
+// obligations of one property, writes evidence and replay files, prints
+// KNOWN-FINDING / VIOLATION lines. Exit codes: 0 held, 1 violation, 2 machinery failure.
+func runProperty(ld *Loader, verif, prop, tier, dir string, timeout, workers int) int {
+	start := time.Now()
+	var defs map[string]PropDef
+	b, err := os.ReadFile(filepath.Join(verif, "properties.map.json"))
+	if err != nil {
+		fmt.Fprintln(os.Stderr, "cannot read properties.map.json:", err)
+		return 2
+	}
+	if err := json.Unmarshal(b, &defs); err != nil {
+		fmt.Fprintln(os.Stderr, "properties.map.json:", err)
+		return 2
+	}
+	def, ok := defs[prop]
+	if !ok {
+		fmt.Fprintln(os.Stderr, "unknown property", prop)
+		return 2
+	}
+	sels := def.Select
+	if tier == "thorough" {
+		sels = append(sels, def.Thorough...)
+	}
+	findings := loadFindings(filepath.Join(verif, "known_findings.jsonl"))
+	type selected struct {
+		fr    *FuncResult
+		kinds []*regexp.Regexp
+	}
+	var results []*FuncResult
+	kindRe := map[*FuncResult][]*regexp.Regexp{}
+	seen := map[string]*FuncResult{}
+	csrc := map[string]string{}
+	var assumptions []string
+	for _, s := range sels {
+		p, err := ld.Load(modPath + "/" + s.Pkg)
+		if err != nil {
+			fmt.Fprintf(os.Stderr, "govc: cannot load %s: %v\n", s.Pkg, err)
+			return 2
+		}
+		if p.Contracts == nil {
+			fmt.Fprintf(os.Stderr, "govc: no contract file for %s\n", s.Pkg)
+			return 2
+		}
+		csrc[s.Pkg] = p.CSource
+		fre := regexp.MustCompile("^(" + s.Funcs + ")$")
+		var kre *regexp.Regexp
+		if s.Kinds != "" {
+			kre = regexp.MustCompile("^(" + s.Kinds + ")$")
+		}
+		add := func(key string, mk func() *FuncResult) {
+			id := s.Pkg + " " + key
+			fr, ok := seen[id]
+			if !ok {
+				fr = mk()
+				seen[id] = fr
+				results = append(results, fr)
+			}
+			kindRe[fr] = append(kindRe[fr], kre)
+		}
+		matched := 0
+		for _, key := range p.Contracts.Order {
+			if fre.MatchString(key) {
+				key := key
+				matched++
+				add(key, func() *FuncResult { return VerifyFunc(ld, p, key) })
+			}
+		}
+		for _, lm := range p.Contracts.Lemmas {
+			if fre.MatchString("lemma:" + lm.Name) {
+				lm := lm
+				matched++
+				add("lemma:"+lm.Name, func() *FuncResult { return VerifyLemma(ld, p, lm) })
+			}
+		}
+		if matched == 0 {
+			fmt.Fprintf(os.Stderr, "govc: selector %s %q matches no contract\n", s.Pkg, s.Funcs)
+			return 2
+		}
+		for _, a := range p.Contracts.Assumptions {
+			assumptions = append(assumptions, s.Pkg+": "+a)
+		}
+	}
+	// filter obligations by kind
+	for _, fr := range results {
+		var keep []*Obligation
+		for _, o := range fr.Obls {
+			ok := false
+			for _, re := range kindRe[fr] {
+				if re == nil || re.MatchString(o.Kind) || o.Kind == "cover" || o.Kind == "subset" || o.Kind == "exists" {
+					ok = true
+				}
+			}
+			if ok {
+				keep = append(keep, o)
+			}
+		}
+		fr.Obls = keep
+	}
+	discharge(results, dir, timeout, workers)
+	// classify
+	known := map[string]Finding{}
+	for _, f := range findings {
+		if f.Property == prop && f.Status == "known" {
+			known[f.Obligation] = f
+		}
+	}
+	type fnEv struct {
+		Name        string  `json:"name"`
+		Mode        string  `json:"mode"`
+		Obligations int     `json:"obligations"`
+		Discharged  int     `json:"discharged"`
+		Seconds     float64 `json:"solver_seconds"`
+		Solvers     string  `json:"solvers"`
+	}
+	var fns []fnEv
+	total, discharged, covers, coversOK := 0, 0, 0, 0
+	var violations []*Obligation
+	var knownHit []Finding
+	solverTime := 0.0
+	bySolver := map[string]int{}
+	var samples []map[string]string
+	for _, fr := range results {
+		ev := fnEv{Name: fr.Pkg[len(modPath)+1:] + "." + fr.Key, Mode: fr.Mode}
+		ss := map[string]bool{}
+		for _, o := range fr.Obls {
+			solverTime += o.Seconds
+			ev.Seconds += o.Seconds
+			if o.Cover {
+				covers++
+				if oblOK(o) {
+					coversOK++
+				} else {
+					violations = append(violations, o)
+				}
+				continue
+			}
+			if f, isKnown := known[o.Name]; isKnown {
+				if !oblOK(o) {
+					knownHit = append(knownHit, f)
+				}
+				continue
+			}
+			total++
+			ev.Obligations++
+			if oblOK(o) {
+				discharged++
+				ev.Discharged++
+				bySolver[o.Solver]++
+				ss[o.Solver] = true
+				if len(samples) < 3 && o.Solver != "trivial" {
+					samples = append(samples, map[string]string{"obligation": o.Name, "clause": o.Text, "answer": o.Status, "solver": o.Solver})
+				}
+			} else {
+				violations = append(violations, o)
+			}
+		}
+		var sl []string
+		for s := range ss {
+			sl = append(sl, s)
+		}
+		sort.Strings(sl)
+		ev.Solvers = strings.Join(sl, ",")
+		fns = append(fns, ev)
+	}
+	for _, f := range knownHit {
+		fmt.Printf("KNOWN-FINDING: property=%s %s: %s\n", prop, f.Obligation, f.WhatFails)
+	}
+	// replay files
+	repDir := filepath.Join(verif, "replays", prop)
+	os.RemoveAll(repDir)
+	exit := 0
+	for _, o := range violations {
+		os.MkdirAll(repDir, 0o755)
+		path := filepath.Join(repDir, sanitize(o.Name)+".json")
+		rep := buildReplay(ld, prop, o, results, dir, verif)
+		jb, _ := json.MarshalIndent(rep, "", " ")
+		os.WriteFile(path, jb, 0o644)
+		suffix := ""
+		if !rep.Reproduced {
+			suffix = " no-failing-input-found"
+		}
+		fmt.Printf("VIOLATION property=%s replay=%s obligation=%s%s\n", prop, path, o.Name, suffix)
+		exit = 1
+	}
+	if total == 0 {
+		fmt.Fprintln(os.Stderr, "govc: no obligations generated for", prop)
+		return 2
+	}
+	seed, _ := strconv.Atoi(os.Getenv("VERIF_SEED"))
+	var srcs []string
+	for k, v := range csrc {
+		srcs = append(srcs, k+"="+v)
+	}
+	sort.Strings(srcs)
+	trusted := []string{
+		"govc encoding of Go semantics (DESIGN.md §3.2)",
+		"SMT solvers z3 4.8.12, z3 5.1.0, cvc5 1.0 (an unsat answer of one of them)",
+		"go/parser, go/types",
+		"dropped calls fmt.Print*, log.Info*, obs.Gauge.Push have no effect on simulator state",
+		"func-typed parameters are pure and total",
+		"single-threaded execution of every function under contract",
+	}
+	trusted = append(trusted, assumptions...)
+	var solverCounts []string
+	for s, n := range bySolver {
+		solverCounts = append(solverCounts, fmt.Sprintf("%s:%d", s, n))
+	}
+	sort.Strings(solverCounts)
+	var kf []string
+	for _, f := range knownHit {
+		kf = append(kf, f.Obligation+": "+f.WhatFails)
+	}
+	evid := map[string]interface{}{
+		"property_id": prop,
+		"tier":        tier,
+		"seed":        seed,
+		"level":       "proof",
+		"coverage": map[string]interface{}{
+			"obligations":          total,
+			"discharged":           discharged,
+			"checker_cmd":          fmt.Sprintf("/verif/bin/govc -property %s -tier %s (z3-new, cvc5, z3 raced per obligation, timeout %ds)", prop, tier, timeout),
+			"trusted_base":         trusted,
+			"functions":            fns,
+			"functions_under_contract": len(fns),
+			"discharged_by_backend": solverCounts,
+			"solver_seconds":       solverTime,
+			"vacuity":              map[string]int{"cover_checks": covers, "cover_ok": coversOK},
+			"known_findings":       kf,
+			"undecided_clauses":    def.Undecided,
+			"contract_sources":     srcs,
+			"samples":              samples,
+			"explanation":          "every obligation is generated from /repo's current source by symbolic execution of the real function bodies against their contracts and discharged by an SMT solver; one obligation per postcondition conjunct, frame, precondition of a callee, loop invariant, bounds/nil/div/shift/panic site",
+		},
+		"assumptions": trusted,
+		"wall_s":      time.Since(start).Seconds(),
+		"violations":  len(violations),
+	}
+	jb, _ := json.MarshalIndent(evid, "", " ")
+	os.MkdirAll(filepath.Join(verif, "evidence"), 0o755)
+	if err := os.WriteFile(filepath.Join(verif, "evidence", prop+".json"), jb, 0o644); err != nil {
+		fmt.Fprintln(os.Stderr, "cannot write evidence:", err)
+		return 2
+	}
+	fmt.Printf("%s %s: %d obligations, %d discharged, %d known findings, %d violations, %d functions, %.1fs\n", prop, tier, total, discharged, len(knownHit), len(violations), len(fns), time.Since(start).Seconds())
+	return exit
 }
